@@ -40,6 +40,9 @@ class EntryExtents:
             pv = num.read(pn, st)
             if isinstance(ext, int):
                 ev = Poly.const(ext)
+            elif isinstance(ext, tuple) and ext[0] == "field":  # ("field", pointer param, record, field)
+                bp = num.read({"k": "var", "n": ext[1], "sc": "param", "t": ptypes[ext[1]], "id": -1}, st)
+                ev = num.field(st, "(" + repr(bp) + ")->" + ext[3], ext[2], ext[3])
             elif isinstance(ext, tuple):  # (len param, element size)
                 ev = num.read({"k": "var", "n": ext[0], "sc": "param", "t": ptypes[ext[0]], "id": -1}, st) * ext[1]
             else:
@@ -86,7 +89,8 @@ def check_function(fn, prog, hooks=None, want=None, max_paths=6000, pairs=None):
         worst = "ok"
         det = ""
         oks = 0
-        for (status, d), s2, mode in checks:
+        for rr, s2, mode in checks:
+            status, d = rr[0], rr[1]
             if status == "fail":
                 worst = "fail"
                 det = d + " | trail " + str(s2.trail[-6:])
